@@ -133,6 +133,8 @@ def signatures(tier):
 
 
 CONTEXTS = ["function", "method", "classmethod", "staticmethod", "classdeco"]
+# for signatures with **kwargs: int -- the declared option addition=True does not displace the annotation of **kwargs
+ADDITION_CONTEXTS = ["function-addition", "classdeco-addition"]
 
 
 def build(sig: Sig, context):
@@ -141,15 +143,19 @@ def build(sig: Sig, context):
     env["__name__"] = "utmc.ns"
     env["ENTERED"] = []
     body = f"ENTERED.append(1); return {sig.body()}"
+    popt = ""
+    if context.endswith("-addition"):
+        context = context[:-len("-addition")]
+        popt = "(options=Options(addition=True))"
     if context == "function":
-        src = (f"@utype.parse\ndef W({sig.text()}):\n    {body}\n"
+        src = (f"@utype.parse{popt}\ndef W({sig.text()}):\n    {body}\n"
                f"def REF({sig.text(ref=True)}):\n    return {sig.body()}\n")
         exec(src, env)
         return env["W"], env["REF"], src, env
     first = {"method": "self", "classmethod": "cls", "staticmethod": None, "classdeco": "self"}[context]
     deco = {"method": "    @utype.parse\n", "classmethod": "    @classmethod\n    @utype.parse\n",
             "staticmethod": "    @staticmethod\n    @utype.parse\n", "classdeco": ""}[context]
-    cdeco = "@utype.parse\n" if context == "classdeco" else ""
+    cdeco = f"@utype.parse{popt}\n" if context == "classdeco" else ""
     src = (f"{cdeco}class K:\n{deco}    def W({sig.text(first=first)}):\n        {body}\n"
            f"def REF({sig.text(ref=True)}):\n    return {sig.body()}\n")
     exec(src, env)
@@ -251,6 +257,9 @@ GEN_BODIES = {
     "seq": ("    r0 = yield '1'\n    LOG.append(r0)\n    r1 = yield 2\n    LOG.append(r1)\n    r2 = yield '3'\n"
             "    LOG.append(r2)\n    return '9'\n", True),
     "echo": ("    r = yield 0\n    while r is not None:\n        LOG.append(r)\n        r = yield r\n    return 8\n", True),
+    # falsy return values are converted like any other
+    "zeroret": ("    r0 = yield '1'\n    LOG.append(r0)\n    return 0.0\n", True),
+    "falseret": ("    r0 = yield 2\n    LOG.append(r0)\n    return False\n", True),
     "badyield": ("    r0 = yield '1'\n    LOG.append(r0)\n    r1 = yield 'x'\n    LOG.append(r1)\n    return 9\n", True),
 }
 GEN_KINDS = ["sync", "sync-eager", "async", "async-eager"]
@@ -266,7 +275,8 @@ def gen_source(kind, body, ann="full"):
     text, _ = GEN_BODIES[body]
     if is_async:
         # async generators cannot return a value
-        text = text.replace("return '9'", "return").replace("return 8", "return").replace("return 9", "return")
+        import re
+        text = re.sub(r"return [^\n]+", "return", text)
         a = {"full": " -> AsyncGenerator[int, int]", "iter": " -> typing.AsyncIterator[int]", "none": ""}[ann]
         head = "async def"
     else:
@@ -364,6 +374,8 @@ def run_shard(shard, tier):
     for sig in sigs:
         n = len(sig.params)
         ctxs = CONTEXTS if (n <= 2 or (tier == "thorough" and n <= 3)) else ["function"]
+        if sig.var_kw and n <= 2:
+            ctxs = ctxs + ADDITION_CONTEXTS
         for ctx in ctxs:
             try:
                 W, REF, src, env = build(sig, ctx)
@@ -463,7 +475,7 @@ def _coarse(sig, args, kwargs):
 
 
 def _script(src, ctx, call, exp):
-    target = {"function": "W", "method": "K().W", "classdeco": "K().W", "classmethod": "K.W", "staticmethod": "K.W"}[ctx]
+    target = {"function": "W", "method": "K().W", "classdeco": "K().W", "classmethod": "K.W", "staticmethod": "K.W"}[ctx.replace("-addition", "")]
     return "\n".join([
         "import sys", "sys.path.insert(0, '/verif')", "from utmc.ns import *", "from utmc.canon import canon",
         "ENTERED = []", src, f"expected = {exp!r}", "try:", f"    got = ('value', {call.replace('W(', target + '(', 1)})",
